@@ -71,6 +71,9 @@ POSITIONS = [
     "if echo @; then :; fi", "if true; then echo @; fi", "if false; then :; else echo @; fi", "if false; then :; elif echo @; then :; fi", "while echo @; do break; done", "until echo @; do break; done", "while true; do echo @; break; done",
     "echo \"${x:-@}\"", "echo \"pre ${x:-a @ b} post\"", "echo \"$(echo @)\"", "echo $(echo @)", "echo `echo @`", "echo $(echo $(echo @))", "echo <(echo @)", "cat <(echo @)", "echo @ > /dev/null 2>&1", "x=${y:-@} true",
     "echo msg=\"${x:-@}\"", "X=\"${x:-@}\" true", "echo pre\"${x:-@}\"post", "echo --a=\"${x:-a @ b}\"", "X=\"${HOME:+@}\"", "for i in a\"${x-@}\"; do :; done", "echo 'lit'\"${x:=@}\"",
+    # a subscript with brackets of its own; text where a ' may or may not quote; a compound ending right before a closer
+    "a['$(while b[$(true)]=v; do echo @; break; done)']=1", "a[b[1]+@]=1", "a[${b[0]}@]+=1", "echo ${HOME:+a '$(A='@' true)' b}", "[[ x == ${HOME:+a '$(A='@' true 'c;d')' b} ]]", "echo \"${HOME:+a '$(A='@' true)' b}\"",
+    "case x in ${HOME:+a '$(A='@' true)'}) ;; esac", "( case x in a) : ;; esac ); echo @; ( case x in b) : ;; esac )", "( case x in x) : ;; esac ) ; echo @", "echo $(case x in x) : ;; esac); echo @",
     "printf '%s' @", "eval echo @", "echo {a,@}", "echo ~/@", "echo $'x'@", "echo ${x:-'lit'@}", "echo ${x:-\"dq\"@}", "echo ${x:-\\@}",
 ]
 SUBSTS = ["$(rm x)", "`rm x`", "<(rm x)", ">(rm x)", "$( rm x )", "$(rm x;)", "$(rm x\n)", "$(rm x #c\n)", "$((1)); rm x", "${z:-$(rm x)}", "$(echo a; rm x)", "$(true && rm x)", "$(true | rm x)", "$(if true; then rm x; fi)"]
